@@ -189,3 +189,39 @@ def content_sources(body, al, local, limit=400):
             if t.dest is not None and t.dest.is_local():
                 pass
     return out, seen
+
+
+def capture_origin(prog, body, cap):
+    """For closure `body` and capture field name `cap`: (parent body, parent local captured) or None."""
+    parent = prog.bodies.get(body.parent)
+    if parent is None:
+        return None
+    for blk in parent.blocks:
+        for s_ in blk.stmts:
+            if s_.kind == 'A' and s_.rv.k == 'agg' and s_.rv.raw.get('ak') == 'closure' and s_.rv.raw.get('def') == body.q:
+                fl = s_.rv.raw.get('fields', [])
+                if cap in fl and s_.rv.ops[fl.index(cap)].place is not None:
+                    return parent, s_.rv.ops[fl.index(cap)].place.local
+    return None
+
+
+def deep_sources_up(prog, mod, body, local, depth=3, hops=3):
+    """deep_sources, continued through closure captures into the enclosing bodies."""
+    out = list(deep_sources(prog, mod, body, local, depth))
+    if body.kind != 'closure' or hops <= 0:
+        return out
+    al = mod.aliases(body.q)
+    caps = set()
+    for leaf in sources(body, al, local):
+        if leaf[0] == 'place' and leaf[1][0] == 1 and leaf[1][1] and leaf[1][1][0].startswith('^'):
+            caps.add(leaf[1][1][0][1:])
+    for leaf in out:
+        if leaf[0] == 'place' and len(leaf) > 2 and leaf[2] == body.q and leaf[1][0] == 1 and leaf[1][1] and \
+                leaf[1][1][0].startswith('^'):
+            caps.add(leaf[1][1][0][1:])
+    for cap in sorted(caps):
+        org = capture_origin(prog, body, cap)
+        if org is not None:
+            out += deep_sources_up(prog, mod, org[0], org[1], depth, hops - 1)
+    return out
+
